@@ -74,7 +74,7 @@ CLAIMED = {
             "Kernel-checked theorems for ALL valid rename histories (any number of batches, swaps, chains, re-used names): reverse/forward maps, "
             "nested-graph resolvers, argument delivery and map_over translation are correct; negative witnesses for the two repaired defects. "
             "Tie to code: random histories applied through the public API on function, gate, interrupt and nested-graph nodes, compared with the model "
-            "and judged by a ground-truth oracle.",
+            "and judged by a ground-truth oracle; histories whose first rename call must be the first of the PROCESS are played in a fresh interpreter.",
             BASE_NOTE + "Whole-interpreter alpha-equivariance is exercised by correspondence only.", "DESIGN.md §7 C06"),
     "C08": ("proof", "Lean 4 proof: set reasoning over the input-spec model; validate-before-execute + correspondence over configurations x omitted inputs",
             "Kernel-checked over arbitrary graphs: required/optional/entry-point parameters are pairwise disjoint and exactly characterised; bind removes from required "
@@ -101,8 +101,9 @@ CLAIMED = {
             "Kernel-checked for every program, runner, completion order and nesting depth: the event log of a terminated run is a trace of the span-tree grammar (RunStart first, "
             "RunEnd last with the observed status, every NodeStart closed once, children inside parents, nested runs parented to the launching node, route decisions inside "
             "their node), shutdown exactly once for top-level calls, none for nested ones, paused runs have no RunEnd; the grammar implies the flat properties and they are "
-            "preserved by interleaving sibling blocks. Tie: all generators under run/map, both runners, async under random completion orders, recording processor + oracle.",
-            BASE_NOTE + "Strict grammar assumes interrupt-free programs; known findings C12-F1 (empty map silent) and C12-F2 (async failure beside a pausing sibling leaves open spans).", "DESIGN.md §7 C12"),
+            "preserved by interleaving sibling blocks. Tie: all generators under run/map, both runners, async under random completion orders, recording processor + oracle. Rejected map calls (limit below 1, absent map_over name, unknown "
+            "selected output, missing required input) are modelled (mapChecked, map_rejects_*, map_accepted_is_map) and compared through the driver op mapc.",
+            BASE_NOTE + "Rejected RUN calls and invalid on_missing strings are judged by the oracle alone (no event, no shutdown, no node call). Strict grammar assumes interrupt-free programs; known findings C12-F1 (empty map silent) and C12-F2 (async failure beside a pausing sibling leaves open spans).", "DESIGN.md §7 C12"),
     "C13": ("proof", "Lean 4 proof: absorption lemma for emit; non-interference of processor outcomes + correspondence per failing event index",
             "Kernel-checked on the dispatcher model: emit/shutdown call every processor exactly once in order whatever Exceptions they raise; every processor receives the "
             "complete stream; a run's result does not depend on the processors; BaseExceptions propagate (outside the claim). Tie: for each generated execution with m events, "
@@ -128,7 +129,7 @@ CLAIMED = {
     "C10": ("proof", "Lean 4 proof: list laws for zip/product, alignment of collected lists, sort-of-permutation + correspondence under random completion orders",
             "Kernel-checked: zip is position-wise with equal lengths enforced, product is row-major with length = product of lengths, every output list of a mapping node has "
             "one entry per combination (None for failed/missing), first failing item's error raised in input order, order restoration from completion order, item i of map = "
-            "single run on combination i. Tie: runner.map and mapping nodes on both runners, async on the controllable loop with max_concurrency {None,1,2,3}, vs single runs.",
+            "single run on combination i; every max_concurrency >= 1 gives the unlimited map (map_limit_irrelevant), a limit below 1 is refused before anything runs (map_no_slot_rejected). Tie: runner.map and mapping nodes on both runners, async on the controllable loop with max_concurrency {None,1,2,3}, vs single runs.",
             BASE_NOTE + "Known finding C10-F1: async map(continue) turns a validation error into FAILED results where sync raises.", "DESIGN.md §7 C10"),
     "C11": ("proof", "Lean 4 proof: error provenance by induction on nesting depth; partial state = successful prefix + correspondence with failure injection",
             "Kernel-checked: a step never re-wraps a node error and reports the first failing node in ready order; nested-graph nodes and map propagate the same error; a user "
